@@ -148,18 +148,33 @@ def site_of(tb):
     return site
 
 
+_CRITICAL = []
+
+
+class _Capture(__import__("logging").Handler):
+    def emit(self, record):
+        _CRITICAL.append(record.getMessage())
+
+
 def run_one(job):
     src, std, ignore_comments = job
     from fparser.two.parser import ParserFactory
     from fparser.two.utils import FortranSyntaxError
     from fparser.common.readfortran import FortranStringReader
     import logging
-    logging.disable(logging.CRITICAL)
+    root = logging.getLogger()
+    if not any(isinstance(h, _Capture) for h in root.handlers):
+        root.handlers[:] = [_Capture(level=logging.CRITICAL)]
+        root.setLevel(logging.CRITICAL)
+    del _CRITICAL[:]
     signal.signal(signal.SIGALRM, _alarm)
     signal.alarm(TIME_LIMIT)
     try:
         tree = ParserFactory().create(std=std)(FortranStringReader(src, ignore_comments=ignore_comments))
         str(tree)
+        if any("STOPPED READING" in m for m in _CRITICAL):
+            # the reader gave up on an internal error and reported the end of the input: the tree silently lacks the rest
+            return dict(exception="reader-stopped-silently", site="readfortran.py:FortranReaderBase.next", message=" | ".join(_CRITICAL)[:160])
         return None
     except FortranSyntaxError:
         return None
